@@ -4,7 +4,7 @@
    The reader is a list of chunks: every Read(p) returns min(len p, rest of the current chunk)
    bytes of the current chunk (an empty chunk is a Read returning 0, nil), and (0, io.EOF)
    when no chunk is left. *)
-From Coq Require Import List NArith Bool.
+From Coq Require Import List NArith Bool Permutation.
 From FS Require Import Sx Model.Stat Model.Varint Model.Codec.
 Import ListNotations.
 Open Scope N_scope.
@@ -64,3 +64,10 @@ Fixpoint recv_msgs_f (fuel : nat) (cs : list bytes) : list (option packet) :=
   end.
 Definition recv_msgs (cs : list bytes) : list (option packet) :=
   recv_msgs_f (S (length (concat cs))) cs.
+
+(* ------------------------------------------------------------------ vocabulary of the theorems *)
+(* a packet that SendMsg can frame: well-formed and shorter than 2^32 bytes (uint32(size)) *)
+Definition sendable (p : packet) : Prop := wf_packet p /\ size_packet p < two32.
+(* [fr] is a frame of [p] for some iteration order of the xattr map *)
+Definition frame_of (p : packet) (fr : bytes) : Prop :=
+  exists xs, Permutation xs (pxattrs p) /\ fr = frame (encode_packet_ord xs p).
